@@ -3,7 +3,7 @@ CONSTANTS
   DefaultConfig <- DefaultConfigVal
   HostsOf <- HostsQuick
   MaxSteps = 6
-  Scenarios <- ScenQuick
+  Scenarios <- ScenAll
   Ordered = FALSE
 CONSTRAINT SimConstraint
 CHECK_DEADLOCK FALSE
